@@ -172,6 +172,32 @@ def viewToJson (v : EntityView) : Json :=
     ("base", Json.arr (v.baseProps.map propToJson).toArray),
     ("volatile", Json.arr (v.volatile.map fun (s : String) => (s : Json)).toArray)]
 
+partial def pyTermOfJson (j : Json) : Except String PyTerm := do
+  match j with
+  | .null => pure .none
+  | .bool b => pure (.bool b)
+  | .num n => if n.exponent = 0 then pure (.int n.mantissa) else pure (.float (toString n))
+  | .str s => pure (.str s)
+  | .arr a => do pure (.list (← a.toList.mapM pyTermOfJson))
+  | .obj _ =>
+    let tag ← j.getObjValAs? String "t"
+    match tag with
+    | "bytes" => pure (.bytes (← j.getObjValAs? String "v"))
+    | "float" => pure (.float (← j.getObjValAs? String "v"))
+    | "other" => pure (.other (← j.getObjValAs? String "v"))
+    | "tuple" => do pure (.tuple (← (← j.getObjValAs? (Array Json) "v").toList.mapM pyTermOfJson))
+    | "dict" => do
+      let kvs ← (← j.getObjValAs? (Array Json) "v").toList.mapM fun e => do
+        let a ← e.getArr?
+        pure ((← pyTermOfJson (a[0]?.getD Json.null)), (← pyTermOfJson (a[1]?.getD Json.null)))
+      pure (.dict kvs)
+    | "obj" => do
+      let fs ← (← j.getObjValAs? (Array Json) "v").toList.mapM fun e => do
+        let a ← e.getArr?
+        pure ((← (a[0]?.getD Json.null).getStr?), (← pyTermOfJson (a[1]?.getD Json.null)))
+      pure (.obj (← j.getObjValAs? String "cls") fs)
+    | t => throw s!"bad pyterm tag {t}"
+
 def errJson (e : Err) : Json := Json.mkObj [("err", e.name)]
 
 end Driver
